@@ -43,12 +43,13 @@ def job(spec):
     from sigpyproc.core import stats
     evs = []
     for c in spec["cases"]:
-        X0 = np.array(c["X"], dtype=np.float32)
+        fdt = np.float64 if c.get("f64") else np.float32       # float64 callers get their array looked at, not worked in
+        X0 = np.array(c["X"], dtype=fdt)
         an, ad, b = c["map"]
         if c.get("loc") == "norm":
             b = 0            # with location 'norm' nothing is subtracted: z-scores are equivariant under pure scalings only
         a = an / ad
-        X1 = (a * X0.astype(np.float64) + b).astype(np.float32)
+        X1 = (a * X0.astype(np.float64) + b).astype(np.float32).astype(fdt)
         # memory layout is not part of the value of an array: a transposed view (what FilReader.read_block returns) or a strided
         # window must give what the contiguous copy gives
         lay = c.get("layout", "C")
@@ -65,6 +66,7 @@ def job(spec):
         exact = c["exact"]
         mag = float(np.max(np.abs(X1)))
         tol = 2 if exact else 2 + int(math.ceil(64 * 2.0 ** -23 * mag * Q))
+        keep0, keep1 = X0.copy(), X1.copy()
         base = {"lanes": L0, "an": an, "ad": ad, "b": b, "method": c["method"], "axis": -1 if axis is None else axis, "q": Q,
                 "tol": tol, "reldiv": 2000 if exact else 150, "cls": c["cls"], "exactmap": exact, "layout": lay}
         if c["kind"] == "scale":
@@ -85,6 +87,7 @@ def job(spec):
                 e["outcome"] = "ok"
             except Exception as exc:  # noqa: BLE001
                 e["outcome"] = f"raise:{type(exc).__name__}:{str(exc)[:60]}"
+            e["intact"] = bool(np.array_equal(X0, keep0) and np.array_equal(X1, keep1))
             evs.append(e)
         else:
             e = dict(base, a="z", loc=c["loc"], z0=[], z1=[], scale0=[], loc0=[], finite=True, shape_ok=True)
@@ -109,6 +112,7 @@ def job(spec):
                 e["outcome"] = "ok"
             except Exception as exc:  # noqa: BLE001
                 e["outcome"] = f"raise:{type(exc).__name__}:{str(exc)[:60]}"
+            e["intact"] = bool(np.array_equal(X0, keep0) and np.array_equal(X1, keep1))
             evs.append(e)
     return evs
 
@@ -153,15 +157,15 @@ def run(v) -> None:
                 # so input rounding of a non-exact map is amplified without bound -> exact maps only for it
                 ex = rng.random() < 0.7 or m == "diffcov"
                 mp = rng.choice(EXACT if ex else GENERAL)
-                cases.append({"kind": "scale", "X": X, "axis": axis, "method": m, "map": mp, "exact": ex, "cls": cls, "layout": layout})
+                cases.append({"kind": "scale", "X": X, "axis": axis, "method": m, "map": mp, "exact": ex, "cls": cls, "layout": layout, "f64": len(cases) % 3 == 0})
             for m in rng.sample(ZMETHODS, 4):
                 ex = rng.random() < 0.7 or m == "diffcov"
                 cases.append({"kind": "z", "X": X, "axis": axis if axis is not None else None, "method": m,
-                              "loc": rng.choice(["median", "mean", "norm"]), "map": rng.choice(EXACT if ex else GENERAL), "exact": ex, "cls": cls, "layout": layout})
+                              "loc": rng.choice(["median", "mean", "norm"]), "map": rng.choice(EXACT if ex else GENERAL), "exact": ex, "cls": cls, "layout": layout, "f64": len(cases) % 3 == 0})
     specs = [{"id": i, "cases": cases[i::14]} for i in range(14)]
     evs = [e for r in pool.pmap(job, specs, workers=14) for e in r]
-    sk = ("a", "lanes", "an", "ad", "b", "method", "q", "tol", "reldiv", "s0", "s1", "l1", "finite", "shape_ok", "valcheck", "outcome")
-    zk = ("a", "lanes", "an", "ad", "b", "method", "q", "tol", "reldiv", "z0", "z1", "scale0", "loc0", "finite", "shape_ok", "outcome")
+    sk = ("a", "lanes", "an", "ad", "b", "method", "q", "tol", "reldiv", "s0", "s1", "l1", "finite", "shape_ok", "valcheck", "outcome", "intact")
+    zk = ("a", "lanes", "an", "ad", "b", "method", "q", "tol", "reldiv", "z0", "z1", "scale0", "loc0", "finite", "shape_ok", "outcome", "intact")
     traces = [{"hdr": {}, "ev": [{k: e[k] for k in (sk if e["a"] == "scale" else zk)} for e in evs[i:i + 25]], "full": evs[i:i + 25]}
               for i in range(0, len(evs), 25)]
     for e in evs:
